@@ -849,9 +849,13 @@ def m_vec_contains(e,run,a,f):
     d=deref(a[0])
     return b_or(*[val_eq(x,a[1]) for x in d.items])
 def m_vec_first(e,run,a,f):
-    d=deref(a[0]); return some(Ref(d,0)) if d.items else none()
+    d=deref(a[0])
+    if isinstance(d,(Str,StringO)): return some(Ref(Cell(Int(8,False,d.b[0])))) if d.b else none()      # byte slice
+    return some(Ref(d,0)) if d.items else none()
 def m_vec_last(e,run,a,f):
-    d=deref(a[0]); return some(Ref(d,len(d.items)-1)) if d.items else none()
+    d=deref(a[0])
+    if isinstance(d,(Str,StringO)): return some(Ref(Cell(Int(8,False,d.b[-1])))) if d.b else none()
+    return some(Ref(d,len(d.items)-1)) if d.items else none()
 def m_vec_get(e,run,a,f):
     d=deref(a[0]); i=deref(a[1])
     if isinstance(i,Int):
@@ -2570,6 +2574,7 @@ def m_delta_num_millis(e,run,a,f):
     sm=z3.If(sub<0,-z3.UDiv(-sub,z3.BitVecVal(1000000,40)),z3.UDiv(sub,z3.BitVecVal(1000000,40)))
     return Int(64,True,z3.simplify(z3.Extract(63,0,ns)*1000+z3.SignExt(24,sm)))
 def m_delta_subsec_nanos(e,run,a,f):
+    if getattr(deref(a[0]),'ty',None)=='StdDuration': return deref(a[0]).f[1]
     _,sub=_delta_parts(a[0]); return Int(32,True,z3.simplify(z3.Extract(31,0,sub)))
 def m_delta_const(mult):
     def m(e,run,a,f):
@@ -2581,13 +2586,62 @@ def m_delta_const(mult):
 def _delta_key(d):
     d=deref(d); S=d.f[0].v if not isinstance(d.f[0].v,int) else z3.BitVecVal(d.f[0].v,72); N=d.f[1].v if not isinstance(d.f[1].v,int) else z3.BitVecVal(d.f[1].v,40)
     return S,N
+# ---- std::time::Duration = Agg('StdDuration',[secs u64, nanos u32 < 1e9]); SystemTime = Agg('SystemTime',[secs i64, nanos u32])
+def _std_dur(secs,nanos): return Agg('StdDuration',[secs,nanos])
+def m_std_duration_new(e,run,a,f):
+    s=deref(a[0]); n=deref(a[1])
+    if n.conc() and n.v<1000000000: return _std_dur(s,n)
+    nz=_zi(n); sz=_zi(s); carry=z3.UDiv(nz,z3.BitVecVal(1000000000,32))
+    s2=sz+z3.ZeroExt(32,carry)
+    if run.branch_bool(Bool(z3.simplify(z3.ULT(s2,sz))),'duration.new.overflow'): raise Panic('overflow in Duration::new')
+    return _std_dur(_mki(64,False,s2),_mki(32,False,z3.URem(nz,z3.BitVecVal(1000000000,32))))
+def m_std_duration_from(mult_ns):
+    def m(e,run,a,f):
+        x=deref(a[0]); xz=z3.ZeroExt(64,_zi(x)) if x.w==64 else z3.ZeroExt(128-x.w,_zi(x))
+        tot=xz*z3.BitVecVal(mult_ns,128)
+        return _std_dur(_mki(64,False,z3.Extract(63,0,z3.UDiv(tot,z3.BitVecVal(1000000000,128)))),_mki(32,False,z3.Extract(31,0,z3.URem(tot,z3.BitVecVal(1000000000,128)))))
+    return m
+def m_std_duration_get(which):
+    def m(e,run,a,f):
+        d=deref(a[0])
+        if which=='as_secs': return d.f[0]
+        if which=='subsec_nanos': return d.f[1]
+        if which=='subsec_millis': return _mki(32,False,z3.UDiv(_zi(d.f[1]),z3.BitVecVal(1000000,32)))
+        if which=='subsec_micros': return _mki(32,False,z3.UDiv(_zi(d.f[1]),z3.BitVecVal(1000,32)))
+        if which=='is_zero': return Bool(z3.simplify(z3.And(_zi(d.f[0])==0,_zi(d.f[1])==0)))
+        raise Unsupported(which)
+    return m
+def _std_cmp(op,x,y):
+    s1,n1,s2,n2=_zi(x.f[0]),_zi(x.f[1]),_zi(y.f[0]),_zi(y.f[1])
+    lt=z3.Or(z3.ULT(s1,s2),z3.And(s1==s2,z3.ULT(n1,n2))); eq=z3.And(s1==s2,n1==n2)
+    t=z3.simplify({'lt':lt,'le':z3.Or(lt,eq),'gt':z3.Not(z3.Or(lt,eq)),'ge':z3.Not(lt),'eq':eq,'ne':z3.Not(eq)}[op])
+    return Bool(z3.is_true(t)) if (z3.is_true(t) or z3.is_false(t)) else Bool(t)
+def m_systemtime_duration_since(e,run,a,f):
+    x=deref(a[0]); y=deref(a[1])
+    if isinstance(y,Opaque) or (isinstance(y,Agg) and y.ty!='SystemTime'):
+        ys,yn=z3.BitVecVal(0,64),z3.BitVecVal(0,32)          # UNIX_EPOCH
+    else: ys,yn=_zi(y.f[0]),(_zi(y.f[1]) if len(y.f)>1 else z3.BitVecVal(0,32))
+    xs,xn=_zi(x.f[0]),(_zi(x.f[1]) if len(x.f)>1 else z3.BitVecVal(0,32))
+    earlier=z3.Or(xs<ys,z3.And(xs==ys,z3.ULT(xn,yn)))
+    if run.branch_bool(Bool(z3.simplify(earlier)),'systemtime.before'): return err(Opaque('SystemTimeError'))
+    borrow=z3.ULT(xn,yn)
+    return ok(_std_dur(_mki(64,False,z3.If(borrow,xs-ys-1,xs-ys)),_mki(32,False,z3.If(borrow,xn+1000000000-yn,xn-yn))))
+def register_std_time(E):
+    M=E.model
+    M(r'^(std::time::)?Duration::new$',m_std_duration_new)
+    M(r'^(std::time::)?Duration::from_secs$',m_std_duration_from(1000000000)); M(r'^(std::time::)?Duration::from_millis$',m_std_duration_from(1000000))
+    M(r'^(std::time::)?Duration::from_micros$',m_std_duration_from(1000)); M(r'^(std::time::)?Duration::from_nanos$',m_std_duration_from(1))
+    for w in ('as_secs','subsec_millis','subsec_micros'): M(r'^(std::time::)?Duration::%s$'%w,m_std_duration_get(w))
+    M(r'^(std::time::)?SystemTime::duration_since$',m_systemtime_duration_since)
 def m_delta_cmp(op):
     def m(e,run,a,f):
+        if getattr(deref(a[0]),'ty',None)=='StdDuration': return _std_cmp(op,deref(a[0]),deref(a[1]))
         S1,N1=_delta_key(deref(a[0])); S2,N2=_delta_key(deref(a[1]))
         lt=z3.Or(S1<S2,z3.And(S1==S2,N1<N2)); eq=z3.And(S1==S2,N1==N2)
         return Bool(z3.simplify({'lt':lt,'le':z3.Or(lt,eq),'gt':z3.Not(z3.Or(lt,eq)),'ge':z3.Not(lt),'eq':eq,'ne':z3.Not(eq)}[op]))
     return m
 def m_delta_is_zero(e,run,a,f):
+    if getattr(deref(a[0]),'ty',None)=='StdDuration': return m_std_duration_get('is_zero')(e,run,a,f)
     S,N=_delta_key(a[0]); return Bool(z3.simplify(z3.And(S==0,N==0)))
 def m_dt_add_delta(sign):
     def m(e,run,a,f):
@@ -2648,6 +2702,7 @@ def m_dt_subsec(which):
     return m
 def register_misc19(E):
     M=E.model
+    register_std_time(E)
     M(r'round_subsecs$',m_dt_round_subsecs('round')); M(r'trunc_subsecs$',m_dt_round_subsecs('trunc'))
     M(r'(^|::)with_nanosecond$',m_dt_with_nanosecond)
     for w in ('nanosecond','timestamp_subsec_nanos','timestamp_subsec_micros','timestamp_subsec_millis'): M(r'(^|>::|DateTime::)%s$'%w,m_dt_subsec(w))
